@@ -295,6 +295,11 @@ def check_tu(ctx, tu):
                         continue   # access to an element, not a write to the list
                     if how.startswith('call:') and meth in ADD_METHODS:
                         guard = any(last_field(g) == 'queueEmptyCounter' for g in si.held_must(pos, 'guard'))
+                        if not guard and f.kind == 'method' and f.access in ('private', 'protected'):
+                            # a non-public step (`lock; queueList.splice(begin, list)` extracted from the processing functions): guarded when
+                            # every call site holds the in-dispatch guard
+                            cs = [(g, n) for (g, n) in tu.callers().get(f.id, []) if queue_of(g) == queue_of(f)]
+                            guard = bool(cs) and all(any(last_field(p) == 'queueEmptyCounter' for p in scopes(g).held_must(g.pos(n), 'guard')) for (g, n) in cs)
                         kind = 'neutral' if guard else 'enabling'
                     elif how.startswith('call:') and meth in REMOVE_METHODS:
                         kind = 'disabling'
